@@ -88,7 +88,7 @@ func dirHashes(dir string) map[string]string {
 
 func TestC11(t *testing.T) {
 	st := statsFor("C11")
-	st.Rule = "a database is built by a generated history under a generated configuration and closed; then a generated fault set is applied from outside: remove object files, add valid object files under fresh uuids (not conflicting on unique paths), remove index entries consistently from schema.json, remove schema.json, make one index internally inconsistent (drop a tuple from one field index only; swap two tuples of different value (the first and the last, or two neighbours - mostly the last two); index one object twice and its neighbour not at all), plus two harmless shapes: a backup copy '<uuid><ext>.bak' next to an object file, an object file replaced by a symbolic link to a regular file. Objects may carry value-changing Transform hooks (after Repair the index must reflect what the files hold). Added files are half of the time written the way another tool would (indented, extra unknown member) so that a Repair that rewrites files changes bytes; caller-style uuids (upper-case, non-v4) are used. Oracle: expected divergence computed from sets (uuid-named files vs. object-ids in schema.json). First load and Control report ErrIndexCorrupted iff the sets differ (some error if an index is internally inconsistent; nil on a healthy database of every configuration); Repair returns nil, leaves every object file byte-identical and creates/removes none; afterwards Control is nil and Count, All, Get and a search sweep (every operator x stored values and neighbours on every indexed path) equal predicates evaluated on the decoded file contents; after Close and reopen Control is still nil. Removed schema: Create reports corruption iff files exist, then Repair as above. Non-trivial: fault set with >= 2 kinds, or a cancelling pair, or a boundary shape (all files gone, only extra files, empty collection). Distinct by program hash."
+	st.Rule = "a database is built by a generated history under a generated configuration and closed; then a generated fault set is applied from outside: remove object files, add valid object files under fresh uuids (not conflicting on unique paths), remove index entries consistently from schema.json, remove schema.json, make one index internally inconsistent (drop a tuple from one field index only; swap two tuples of different value (the first and the last, or two neighbours - mostly the last two); index one object twice and its neighbour not at all), plus two harmless shapes: a backup copy '<uuid><ext>.bak' next to an object file, an object file replaced by a symbolic link to a regular file. Objects may carry value-changing Transform hooks (after Repair the index must reflect what the files hold). Added files are half of the time written the way another tool would (indented, extra unknown member, half of those partial documents that leave members out) so that a Repair that rewrites files changes bytes; Repair is given a template object with non-zero fields (only its type may matter); in a third of the divergent cases the first call is a bulk import (must report corruption and store nothing); after Repair the objects whose files were lost are stored again exactly as they were and must be written; caller-style uuids (upper-case, non-v4) are used. Oracle: expected divergence computed from sets (uuid-named files vs. object-ids in schema.json). First load and Control report ErrIndexCorrupted iff the sets differ (some error if an index is internally inconsistent; nil on a healthy database of every configuration); Repair returns nil, leaves every object file byte-identical and creates/removes none; afterwards Control is nil and Count, All, Get and a search sweep (every operator x stored values and neighbours on every indexed path) equal predicates evaluated on the decoded file contents; after Close and reopen Control is still nil. Removed schema: Create reports corruption iff files exist, then Repair as above. Non-trivial: fault set with >= 2 kinds, or a cancelling pair, or a boundary shape (all files gone, only extra files, empty collection). Distinct by program hash."
 	st.Assumptions = baseAssumptions()
 	prof := &Profile{
 		Property: "C11", MaxOps: pick(8, 18),
@@ -126,6 +126,7 @@ func caseC11(t TB, prog *Program) {
 	e := NewEnv(t, prog, RunOpts{SweepLevel: 2, Control: true})
 	defer e.Teardown()
 	e.Run()
+	orig := e.m
 	if err := e.db.Close(); err != nil {
 		e.failf("Close: %v", err)
 	}
@@ -257,24 +258,38 @@ func caseC11(t TB, prog *Program) {
 					cur.objs[fid] = d
 				}
 			}
-			if cur.conflicts(f.D, id, cur.objs) {
-				e.flag("fault-skipped-unique-conflict")
-				continue
-			}
 			body := []byte(canon(f.D))
 			// a file written by another tool: same content, other bytes (indented, member
-			// order irrelevant, an extra member the struct does not know)
+			// order irrelevant, an extra member the struct does not know) - and, every other
+			// time, a partial document that leaves members out (they are zero then)
 			if f.Seed%2 == 0 {
 				var generic map[string]interface{}
 				dec := json.NewDecoder(bytes.NewReader(body))
 				dec.UseNumber()
 				if dec.Decode(&generic) == nil {
 					generic["XForeignComment"] = "written by another tool"
+					if f.Seed%4 == 2 {
+						for i, k := range sortedStrKeys(generic) {
+							if i%3 == int(f.Seed/4)%3 && k != "H" {
+								delete(generic, k)
+							}
+						}
+						e.flag("partial-document-added")
+					}
 					if b, err := json.MarshalIndent(generic, "", "   "); err == nil {
 						body = b
 						e.flag("foreign-formatted-file-added")
 					}
 				}
+			}
+			eff := &Doc{}
+			if err := json.Unmarshal(body, eff); err != nil {
+				e.failf("harness: %v", err)
+			}
+			eff.Initialize(id)
+			if cur.conflicts(eff, id, cur.objs) {
+				e.flag("fault-skipped-unique-conflict")
+				continue
 			}
 			if e.cfg.Compress {
 				body = gz(body)
@@ -449,7 +464,23 @@ func caseC11(t TB, prog *Program) {
 		}
 		divergent = len(fileSet) > 0
 	} else {
-		_, err := db.Count(&Doc{})
+		var err error
+		if divergent && !inconsistent && prog.Hash()%3 == 0 {
+			// the first call is a bulk import of one full chunk: it gets the corruption report,
+			// stores nothing and says so
+			ch := make(chan sod.Object, 2)
+			ch <- &Doc{S: "first-call-1"}
+			ch <- &Doc{S: "first-call-2"}
+			close(ch)
+			var n int
+			n, err = db.InsertOrUpdateBulk(ch, 2)
+			if n != 0 || len(WalkDir(dir).Objects) != len(fileSet) {
+				e.failf("files and index differ as sets; InsertOrUpdateBulk as the first call returned n=%d err=%v and left %d object files (%d before)", n, err, len(WalkDir(dir).Objects), len(fileSet))
+			}
+			e.flag("first-call-is-a-bulk-import")
+		} else {
+			_, err = db.Count(&Doc{})
+		}
 		switch {
 		case inconsistent:
 			if err == nil {
@@ -482,7 +513,8 @@ func caseC11(t TB, prog *Program) {
 	}
 
 	// ---- repair
-	if err := db.Repair(&Doc{}); err != nil {
+	// (the argument only names the collection: its field values must not matter)
+	if err := db.Repair(&Doc{S: "template", S2: "template", I64: 77, U8: 7, F64: 7.5, T: baseTime, In: Inner{S: "template", N: 7}, Pt: &Inner{S: "template"}}); err != nil {
 		e.failf("Repair returned %v (divergent=%v files=%d indexed=%d)", err, divergent, len(fileSet), len(indexSet))
 	}
 	after := dirHashes(dir)
@@ -502,6 +534,29 @@ func caseC11(t TB, prog *Program) {
 	e.dirty = false
 	e.opts.Walk = false
 	e.Check("after Repair (model = decoded file contents)")
+	// objects whose file was lost are stored again, exactly as they were: they must be written
+	restored := 0
+	for _, id := range sortedIDs(removedFile) {
+		d, had := orig.objs[id]
+		if _, back := e.m.objs[id]; back || !had || e.m.conflicts(d, id, e.m.objs) {
+			continue
+		}
+		e.note(id)
+		e.upsert(fmt.Sprintf("storing %s again after Repair", e.tag(id)), cloneDoc(d), id)
+		restored++
+	}
+	if restored > 0 {
+		e.flag("lost-objects-stored-again-after-repair")
+		if e.cfg.Async != nil {
+			if err := db.FlushAllAndCommit(&Doc{}); err != nil {
+				e.failf("FlushAllAndCommit: %v", err)
+			}
+		}
+		if err := db.Control(); err != nil {
+			e.failf("after storing the lost objects again, Control returned %v", err)
+		}
+		e.Check("after storing the lost objects again")
+	}
 	if err := db.Close(); err != nil {
 		e.failf("Close after Repair: %v", err)
 	}
